@@ -311,10 +311,12 @@ PLAN = {
               dict(harness="c07.throttle.lines", bound=1, select=CORE),
               dict(harness="c07.throttle.wake", bound=2),
               dict(harness="c07.throttle.wake.lines", bound=1)],
-    "thorough": [dict(harness="c07.throttle", bound=2),
-                 dict(harness="c07.throttle", bound=3, select=CORE),
+    # thorough (sized with tools/size_plan.py; a third deviation on any c07.throttle cell is > 10^7
+    # executions, so depth is bought with the non-initial-state harness instead)
+    "thorough": [dict(harness="c07.throttle", bound=1),
+                 dict(harness="c07.throttle", bound=2, select=lambda p: CORE(p) or p["njobs"] == 3),
                  dict(harness="c07.throttle.lines", bound=1),
-                 dict(harness="c07.throttle.lines", bound=2, select=CORE),
+                 dict(harness="c07.throttle.lines", bound=2, select=lambda p: p["count"] == "1" and p["njobs"] == 3 and p["nsub"] == 1 and not p["cancel"] and not p["block"]),
                  dict(harness="c07.throttle", bound=1, jump=True, select=lambda p: not p["block"]),
                  dict(harness="c07.throttle.wake", bound=3),
                  dict(harness="c07.throttle.wake.lines", bound=2)],
